@@ -18,7 +18,7 @@ BOUND = ("boundary-free hat basis on [0,1]^d, d<=3; uniform component grids: eve
          "to calculate_operation_dimension_wise of an operation initialised by a real zero-step run; data sets of 1..40 samples in the "
          "closed unit cube of kinds random / on dyadic grid lines / on the domain boundary / clustered / mixed, plus anchor data sets of 4097..12500 "
          "(labelled) samples on small uniform grids; sequences of 4 level vectors (first one revisited) on ONE operation; hat evaluations additionally at "
-         "grid points, cell mid points, corners and points one floating-point neighbour below/above interior grid coordinates; lambda in {0,1e-3,0.1}; "
+         "grid points, cell mid points, corners and points one floating-point neighbour below/above interior grid coordinates; lambda in {0,1e-3,0.1,1e8}; "
          "mass lumping on/off; analytic and numeric (1-D: N<=15, 2-D: N<=3) matrix entries; class labels none or +-1; right-hand side on the "
          "small (N<200), large (N>=200) and reuse (N>=200, previous iteration present) paths, natively on grids with N>=200 and, in the "
          "harness process only, with the size constant 200 of the real functions replaced by 0 / 10**9 on small grids")
@@ -837,7 +837,7 @@ def refine_stripes(rng, stripes, levels, k, maxlevel=6):
     return stripes, levels
 
 
-LAMBDAS = (0.0, 1e-3, 0.1)
+LAMBDAS = (0.0, 1e-3, 0.1, 1e8)      # 1e8: a solution of tiny magnitude whose normalising integral lies below numpy's default absolute tolerance (missed seed C16_9)
 
 
 def single_thread(f):
